@@ -88,7 +88,7 @@ func checkC12(c *h.Check) {
 	for _, sh := range c12Shapes() {
 		nf := len(sh.fields)
 		// ---- wire.Struct: every subset of names, "*", one unknown name; consumers S, *S, both ----
-		for sub := 0; sub <= 1<<uint(nf)+1; sub++ {
+		for sub := 0; sub <= 1<<uint(nf)+3; sub++ {
 			for cons := 0; cons < 3; cons++ {
 				b := ir.NewBuilder()
 				p := b.Root
@@ -102,6 +102,12 @@ func checkC12(c *h.Check) {
 				case sub == 1<<uint(nf)+1:
 					names = []string{"Nope"}
 					label = "unknown"
+				case sub == 1<<uint(nf)+2:
+					names = []string{"*", "Nope"}
+					label = "star-then-unknown"
+				case sub == 1<<uint(nf)+3:
+					names = []string{"*", sh.fields[0].name}
+					label = "star-then-name"
 				default:
 					for i := 0; i < nf; i++ {
 						if sub&(1<<uint(i)) != 0 {
@@ -201,12 +207,15 @@ func checkC12(c *h.Check) {
 					}
 					inj := &ir.Injector{Name: "Init", Out: r, Items: items}
 					add(fmt.Sprintf("C12/fieldsof/%s/%s/ptrparent=%d/ptrcons=%d", sh.name, label, ptrParent, ptrCons), &ir.Program{Root: p, Injectors: []*ir.Injector{inj}})
+					// the same with the struct handed in as an injector argument instead of provided by a function
+					inj2 := &ir.Injector{Name: "Init", Out: r, Params: []ir.Param{{Name: "s", T: parent}}, Items: items[1:]}
+					add(fmt.Sprintf("C12/fieldsof-param/%s/%s/ptrparent=%d/ptrcons=%d", sh.name, label, ptrParent, ptrCons), &ir.Program{Root: p, Injectors: []*ir.Injector{inj2}})
 				}
 			}
 		}
 	}
 	results := c.JudgeAll(cases)
-	stdCoverage(c, cases, results, "5 struct shapes (exported/unexported/embedded/prevented fields; tagged fields; pairs and triples of names differing only in letter case) x wire.Struct with every subset of names, \"*\" and an unknown name x consumers {S, *S, both}; wire.FieldsOf with every non-empty subset and an unknown name x {new(S), new(*S)} x consumers of {field type, pointer to field, pointer plus parent with an aliasing probe that compares addresses and writes through the pointer}. Oracle: prevented/unknown names rejected; accepted programs run and the constructed struct is described field by field (selected fields carry the designated identities, all others zero); selected fields equal the parent's fields. Distinct = distinct rendered source.")
+	stdCoverage(c, cases, results, "5 struct shapes (exported/unexported/embedded/prevented fields; tagged fields; pairs and triples of names differing only in letter case) x wire.Struct with every subset of names, \"*\", an unknown name, \"*\" followed by an unknown or a known name x consumers {S, *S, both}; wire.FieldsOf with every non-empty subset and an unknown name x {new(S), new(*S)} x struct {provided by a function, handed in as an injector argument} x consumers of {field type, pointer to field, pointer plus parent with an aliasing probe that compares addresses and writes through the pointer}. Oracle: prevented/unknown names rejected; accepted programs run and the constructed struct is described field by field (selected fields carry the designated identities, all others zero); selected fields equal the parent's fields. Distinct = distinct rendered source.")
 	c.Coverage["model_verdict_classes"] = kinds.summary()
 	sampleCase(c, cases, results)
 	if kinds["model:accept"] < 50 || kinds["model:bad-field"] < 20 {
